@@ -14,7 +14,7 @@ theorem reward_eq_objective (i : Inst) {as : List Nat} {s : State}
     reward i s = - Spec.Flp.objective i as := by
   unfold reward Spec.Flp.objective
   congr 1
-  exact sumRange_congr (fun j _ => curMin_eq_nearest h hne j)
+  exact sumRange_congr (fun j _ => rewardMin_eq_nearest h hne j)
 
 /-- the objective does not depend on the order of the selections -/
 theorem objective_perm (i : Inst) {as bs : List Nat} (hne : as ≠ []) (h : ∀ c, c ∈ as ↔ c ∈ bs) :
